@@ -350,8 +350,15 @@ def gen_gap(rng, I, style):
     return 3 * I + rng.randint(0, I)
 
 
+LONG = [("1d", 86400), ("24h", 86400), ("36h", 129600), ("2 days", 172800), ("1h", 3600), ("90min", 5400), ("1d 1s", 86401)]
+
+
 def gen_case(rng, kind):
     I = rng.choice(INTERVALS) if rng.random() < 0.96 else 0
+    long_str = None
+    if rng.random() < 0.06:
+        long_str, secs = rng.choice(LONG)       # intervals of hours and days, given as strings (virtual time: no cost)
+        I = secs * 1024
     nprod = rng.choice([1, 1, 2, 2, 3, 4])
     producers = []
     for _ in range(nprod):
@@ -367,7 +374,9 @@ def gen_case(rng, kind):
             costs = []
     case = {"kind": kind, "interval": I, "topology": rng.choice(["single", "union"]),
             "start": rng.choice([0, 0, 7, 1000]), "producers": producers, "costs": costs}
-    if I and (I * 1000) % 1024 == 0 and rng.random() < 0.5:
+    if long_str:
+        case["interval_str"] = long_str
+    elif I and (I * 1000) % 1024 == 0 and rng.random() < 0.5:
         case["interval_str"] = "%dms" % (I * 1000 // 1024)     # convert_interval() path (pandas Timedelta)
     if rng.random() < 0.35:
         # the consumer rejects one or two elements (never only the very last arrival: what matters is
@@ -393,6 +402,10 @@ def C(kind, I, producers, costs=(), topology="single", start=0):
 
 
 CORPUS = [
+    # intervals of a day and more, given as strings: a burst of three is spread over days
+    dict(C("rate_limit", 86400 * 1024, [P(False, 0, 0, 0)]), interval_str="1d"),
+    dict(C("rate_limit", 129600 * 1024, [P(True, 0, 5, 0)]), interval_str="36h"),
+    dict(C("delay", 172800 * 1024, [P(False, 0, 1024, 0)]), interval_str="2 days"),
     # None and other falsy payloads in the middle of a burst: they are elements like any other
     dict(C("delay", 8, [P(False, 0, 0, 0, 0, 0, 0)]), payloads={"2": "N", "4": "E"}),
     dict(C("delay", 8, [P(True, 0, 3, 0, 20, 0)], costs=[3]), payloads={"1": "N"}),
